@@ -134,6 +134,7 @@ def run(ck):
     ck.build([MODEL])
     ck.props()
     GL.check_histories(ck, monitor, TIED)
+    GL.run_sync_stream(ck, 4000 if ck.tier == "thorough" else 250)
     # clause "each committing with that generation and member id", on the wire: real Consumer + real KafkaClient request encoders under
     # the real ConsumerGroup; every OffsetCommit frame parsed independently of afkak's codec
     nw = 600 if ck.tier == "thorough" else 45
